@@ -147,7 +147,7 @@ CHECKS = {
              "run_once; AppliesValid, KeepsOnBad, NoSwapIfUnchanged, StopsOnlyOnRateRemoval are TLC action properties "
              "and every history of the bounded instance is replayed in YAML/JSON/TOML with explicit mtimes, comparing "
              "the result class, the active version, the rate and whether the logger was swapped.",
-        note=TLC_BASE + "; free-running schedules are sampled; the reloader's sleep loop is not driven in the quick tier",
+        note=TLC_BASE + "; free-running schedules are sampled; the refresh thread's lifetimes follow 3 fixed scripts",
         design="7/C15"),
     "C19": dict(
         category="model_checking",
@@ -271,6 +271,65 @@ CHECKS = {
         design="7/C14"),
 }
 
+EXTRA = {'C01': 'Each configuration additionally runs with failing appenders (none / all / one): deliveries are unchanged '
+        'and the error handler is called once per failed delivery (Reported).',
+ 'C03': 'Sinks are Append implementors and log::Log implementors attached through the blanket adapter (whose own '
+        'enabled() says no); builder styles filter()/filters() are mixed.',
+ 'C05': 'The replay materialises every behaviour five times: 10-byte units with DeleteRoller, 400-byte units with a '
+        'two-chunk encoder (straddling the 1 KiB BufWriter), 16-byte units with gzip archives and an appender built '
+        'from a configuration value, 12-byte units with the index in a directory component of the archive pattern, '
+        'and 14-byte units with the active file and the archives on different filesystems (rename fails, copy '
+        'fallback). Rolling.tla also has encoder failures (EncFail: part of a record written, then Err) with the '
+        'BufWriter capacity as a parameter. Recorded traces of 2-4 real threads (and one long lifetime of 320 / 2400 '
+        'records per batch) are validated against the same specification (Trace_Rolling.tla).',
+ 'C06': 'The replay materialises every behaviour five times: 10-byte units with DeleteRoller, 400-byte units with a '
+        'two-chunk encoder (straddling the 1 KiB BufWriter), 16-byte units with gzip archives and an appender built '
+        'from a configuration value, 12-byte units with the index in a directory component of the archive pattern, '
+        'and 14-byte units with the active file and the archives on different filesystems (rename fails, copy '
+        'fallback). Rolling.tla also has encoder failures (EncFail: part of a record written, then Err) with the '
+        'BufWriter capacity as a parameter.',
+ 'C07': 'A .gz archive must be exactly one gzip member (bytes after it count as corruption); windows are also placed '
+        'at the top of the u32 index range; rollers are built through the builder and from configuration values.',
+ 'C08': 'The replay materialises every behaviour five times: 10-byte units with DeleteRoller, 400-byte units with a '
+        'two-chunk encoder (straddling the 1 KiB BufWriter), 16-byte units with gzip archives and an appender built '
+        'from a configuration value, 12-byte units with the index in a directory component of the archive pattern, '
+        'and 14-byte units with the active file and the archives on different filesystems (rename fails, copy '
+        'fallback). Rolling.tla also has encoder failures (EncFail: part of a record written, then Err) with the '
+        'BufWriter capacity as a parameter.',
+ 'C09': "DateZone.tla adds the environment's local zone as state: histories in which the zone changes between the "
+        'construction of an encoder and its use and between two uses (4 POSIX zones, 4 date kinds) are replayed on '
+        'fresh threads and, for a few, on a single thread.',
+ 'C10': 'Every length class is instantiated by code points at the edges of its UTF-8 range (first / last lead byte, '
+        'first / last continuation byte); fill characters of 1, 2 and 3 bytes; every third case builds the encoder '
+        'from a configuration value.',
+ 'C11': 'The curated family includes alignment nested in alignment (re-entrant width writers); every fourth case '
+        'encodes into a sink that accepts only a prefix per write call.',
+ 'C12': 'Sinks accept everything, one byte, three bytes or 7/1/64 bytes per write call; every other record uses an '
+        'encoder built from a configuration value; an earlier record of the same thread fails part-way into its '
+        'sink.',
+ 'C13': 'The declarations reach the builders one at a time, in bulk and in mixtures of both (appender()/appenders(), '
+        'logger()/loggers(), and the same for references).',
+ 'C14': 'Registry.tla (insert / clone / lookup of deserializers per trait and kind, 192k histories) is replayed on '
+        'log4rs::config::Deserializers in the same run.',
+ 'C15': 'The refresh thread itself is covered impl->spec: scripted lifetimes of the real init_file thread (hook '
+        'reloader.sleep) are validated as traces against Reloader.tla (Trace_Reloader.tla): every sleep lasts the '
+        'rate of the last applied file.',
+ 'C16': 'Every other history builds the whole appender (compound policy, trigger kind `time`) from a configuration '
+        'value.',
+ 'C17': 'The replay materialises every behaviour five times: 10-byte units with DeleteRoller, 400-byte units with a '
+        'two-chunk encoder (straddling the 1 KiB BufWriter), 16-byte units with gzip archives and an appender built '
+        'from a configuration value, 12-byte units with the index in a directory component of the archive pattern, '
+        'and 14-byte units with the active file and the archives on different filesystems (rename fails, copy '
+        'fallback). Rolling.tla also has encoder failures (EncFail: part of a record written, then Err) with the '
+        'BufWriter capacity as a parameter. Recorded traces of threads released together by a barrier, and one long '
+        'lifetime of 320 / 2400 records per batch, are validated against Rolling.tla (Trace_Rolling.tla).',
+ 'C18': 'After every append the child writes a marker to the descriptor itself: each record must be on the stream '
+        'when its append returns; every row runs with builder- and configuration-built appenders, with and without a '
+        'final newline in the pattern.',
+ 'C19': 'A fifth site rolls three times through a window of two with the index before the reference (an expansion '
+        "containing '/' puts the index into a directory component).",
+ 'C20': 'Junk units include long ones (7..257 letters, a 2-, 3- or 4-byte letter at every place).'}
+
 NOT_YET = "check not built yet in this round (planned, see DESIGN.md section 7)"
 
 
@@ -293,7 +352,7 @@ def main():
             "evidence_file": "/verif/evidence/%s.json" % pid,
             "replay_cmd_template": "./check %s --replay {path}" % pid,
             "engine": "tlc+lv-harness",
-            "level_claimed": {"category": c["category"], "text": c["text"], "design_ref": c["design"]},
+            "level_claimed": {"category": c["category"], "text": c["text"] + (" " + EXTRA[pid] if pid in EXTRA else ""), "design_ref": c["design"]},
             "level_note": c["note"],
             "technique": c["technique"],
         })
